@@ -452,6 +452,18 @@ def vl_rules(ctx):
            key='returns', why='returned pair is not (Phi, UR @ Phi^T)')
 
 
+def _is_square(e):
+    """x ** 2, x * x, np.square(x)"""
+    if isinstance(e, ast.BinOp) and isinstance(e.op, ast.Pow) and norm_text(e.right) == '2':
+        return True
+    if isinstance(e, ast.BinOp) and isinstance(e.op, ast.Mult) and \
+            norm_text(e.left) == norm_text(e.right):
+        return True
+    if isinstance(e, ast.Call) and norm_text(e.func) in ('np.square', 'numpy.square'):
+        return True
+    return False
+
+
 def q_psd(ctx):
     ctx.rule('Q-PSD', 'call site: Q = G diag(q**2) G^T (PSD by construction), step = the '
              'propagation interval of the averaged states')
@@ -481,8 +493,7 @@ def q_psd(ctx):
         okT = bt in (norm_text(a) + '.T', norm_text(a) + '.transpose()',
                      'np.transpose(%s)' % norm_text(a))
         okD = isinstance(d, ast.Call) and f.module.resolve(d.func, f.local_names()) == \
-            'numpy.diag' and isinstance(d.args[0], ast.BinOp) and \
-            isinstance(d.args[0].op, ast.Pow) and norm_text(d.args[0].right) == '2'
+            'numpy.diag' and _is_square(d.args[0])
         ok = okT and okD
         if not okD:
             why = ('noise intensities enter as `%s`: root-PSD values must be squared'
